@@ -384,8 +384,12 @@ def make_spec_step(fam, attr, op, nmax):
             check(list(got) == list(m) and all(got[x] is m[x] or got[x] == m[x] for x in m), "keywords build or update the element under the key", f"{tag}/content", lambda: f"{got!r} vs {m!r}")
             return "ok"
         # keyed items (K4)
-        pre = [(KEYS[t], e[t]) for t in range(n)]
-        mk = lambda: [NS.Item(kk, v=x) for kk, x in pre]
+        raw = [(KEYS[t], e[t]) for t in range(n)]
+        mk = lambda: [NS.Item(kk, v=x) for kk, x in raw]
+        # the template's item preparer for `items` replaces items with a negative payload by a new Item(k, v=0)
+        norm = (lambda x: 0 if x < 0 else x) if attr == "items" else (lambda x: x)
+        pre = [(kk, norm(x)) for kk, x in raw]
+        v_in = v  # (the item preparer sees the incoming KEY, before the element is built / updated from the keywords)
         if attr == "items":
             o = NS.K4(items=mk())
         elif attr == "bag":
@@ -410,7 +414,7 @@ def make_spec_step(fam, attr, op, nmax):
             else:
                 m[idx] = (key, 0)  # KeyedSet: most recently added item under the key
         elif op == "with_key_kw":
-            call = lambda: getattr(o, f"with_{sing}")(key, v=v, **kw)
+            call = lambda: getattr(o, f"with_{sing}")(key, v=v_in, **kw)
             if idx is None or attr == "lst":
                 m.append((key, v))
             elif attr == "items":
@@ -420,10 +424,10 @@ def make_spec_step(fam, attr, op, nmax):
         elif op == "update_key_kw":
             if attr == "lst":
                 assume(0 <= i < n)
-                call = lambda: getattr(o, f"update_{sing}")(i, v=v, **kw)
+                call = lambda: getattr(o, f"update_{sing}")(i, v=v_in, **kw)
                 m[i] = (m[i][0], v)
             else:
-                call = lambda: getattr(o, f"update_{sing}")(key, v=v, **kw)
+                call = lambda: getattr(o, f"update_{sing}")(key, v=v_in, **kw)
                 if idx is None:
                     miss = True
                 else:
